@@ -87,3 +87,16 @@ Theorem C05_source_response_reset : forall (sym : string -> Z) b a wr sz stt cm 
 Proof. exact src_response_reset_forgets. Qed.
 Print Assumptions C05_source_response_reset.
 
+
+(* ---- Echo.ServeHTTP itself, from its statement-level translation (Gen/Src_servehttp.v, re-translated from echo.go on every
+   run): the pooled context is Reset with THIS request and writer before anything else touches it and returns to the pool exactly
+   once, last, whether the chain failed or not; the error handler runs exactly when the chain returns an error; without Pre
+   middleware the route is looked up first, with Pre middleware not by ServeHTTP at all (the lookup is inside the wrapped closure) *)
+From Coq Require Import ZArith String.
+From Echo Require Import Base.GoLite Gen.Src_servehttp Http.ServeHTTPSrc.
+Theorem C05_source_serve_http : forall sym, sym "nil"%string = 0%Z -> forall pre ctx r w hv err,
+  GoLite.events (fst (GoLite.run sym src_serve_http_results src_serve_http (ServeHTTPSrc.start pre ctx r w hv err))) =
+  ([ev_get; ev_reset r w] ++ (if (pre =? 0)%Z then [ev_find sym ctx; ev_handler] else []) ++ [ev_chain ctx] ++
+   (if (err =? 0)%Z then [] else [ev_error ctx err]) ++ [ev_put ctx])%list.
+Proof. exact ServeHTTPSrc.C05_source_serve_http. Qed.
+Print Assumptions C05_source_serve_http.
